@@ -148,7 +148,13 @@ func c07TreeOp(work string, c *c07Case, in bkInput) (func(ctx context.Context, c
 			return nil, nil, err
 		}
 		run := func(ctx context.Context, cc *canceller) error {
-			hs := &hookStore{ls, func(k string, id desync.ChunkID) error { cc.tick("st." + k); return nil }}
+			hs := &hookStore{ls, func(k string, id desync.ChunkID) error {
+				cc.tick("st." + k)
+				if c.CtxBound && ctx.Err() != nil {
+					return errCtxBound
+				}
+				return nil
+			}}
 			return desync.UnTarIndex(ctx, &tickFSWriter{desync.NewLocalFS(dst, c07FSOpt), cc.tick}, idx, hs, c.N, desync.NullProgressBar{})
 		}
 		return run, treeComplete, nil
@@ -174,7 +180,10 @@ func c07TreeOp(work string, c *c07Case, in bkInput) (func(ctx context.Context, c
 }
 
 // c07MakeArchive builds a small random tree on disk and returns its catar archive.
-func c07MakeArchive(work string, rng *vh.Rand) ([]byte, error) {
+func c07MakeArchive(work string, rng *vh.Rand) ([]byte, error) { return c07MakeArchiveN(work, rng, 300) }
+
+// c07MakeArchiveN: files of up to maxFile bytes.
+func c07MakeArchiveN(work string, rng *vh.Rand, maxFile int) ([]byte, error) {
 	root := filepath.Join(work, "gen")
 	os.RemoveAll(root)
 	if err := os.MkdirAll(root, 0755); err != nil {
@@ -192,7 +201,7 @@ func c07MakeArchive(work string, rng *vh.Rand) ([]byte, error) {
 	nf := 3 + rng.Intn(6)
 	for i := 0; i < nf; i++ {
 		p := filepath.Join(root, dirs[rng.Intn(len(dirs))], fmt.Sprintf("f%d", i))
-		if err := os.WriteFile(p, rng.Bytes(rng.Intn(300)), 0644); err != nil {
+		if err := os.WriteFile(p, rng.Bytes(rng.Intn(maxFile)), 0644); err != nil {
 			return nil, err
 		}
 	}
